@@ -130,7 +130,7 @@ def fault_sweeps(a, lo, hi, fuel):
         retry = rng.random() < 0.7
         for target in targets:
             length = lengths[target]
-            cap = 120 if target == targets[0] else 50
+            cap = 64 if target == targets[0] else 32
             positions = list(range(1, length + 1)) if length <= cap else sorted({1 + int(i * (length - 1) / (cap - 1)) for i in range(cap)})
             out["target_ops"][steps[target]["op"]] = out["target_ops"].get(steps[target]["op"], 0) + 1
             out["target_lengths"].append(length)
